@@ -103,16 +103,20 @@ Definition values_are_refs (s : vm) : Prop :=
   (forall p vid, heap_get (hp s) p = Ok (VVec vid) -> tget (vecs (st s)) vid <> None) /\
   (forall vid, next_id (st s) <= vid -> tget (vecs (st s)) vid = None).
 
-(* the top of the stack, topmost value first *)
-Fixpoint stack_top (stk : list vcell) (p : N) (l : list vcell) : Prop :=
+(* the top of the stack, topmost value first.  The stack is the slot table [stk] of a
+   Vec of [cap] slots (Model/VmBase.v): slot p can be popped when p <> 0 and p < cap
+   (Stack::pop, stack.rs:158-167), and holds [sget] = the table entry, Undefined if absent *)
+Fixpoint stack_top (stk : tbl vcell) (cap p : N) (l : list vcell) : Prop :=
   match l with
   | [] => True
-  | v :: r => p <> 0 /\ list_get stk p = Some v /\ stack_top stk (p - 1) r
+  | v :: r => p <> 0 /\ p < cap /\
+              (match tget stk p with Some x => x | None => VUndef end) = v /\
+              stack_top stk cap (p - 1) r
   end.
 
 (* a builtin called with the argument values [args] (first argument first) *)
 Definition called_with (s : vm) (args : list vcell) : Prop :=
-  stack_top (stack s) (sp s) (VArgc (len args) :: rev args).
+  stack_top (stack s) (scap s) (sp s) (VArgc (len args) :: rev args).
 
 (* -------------------------------------------------------- abstract operations *)
 (* a finite chain of pairs: its elements and the value that ends it (the empty list
